@@ -2,7 +2,7 @@ from registry import reg, Check
 
 reg(Check(
     "C17", "c17",
-    coq_targets=["TargetCfg/TargetCfgCheck.vo", "TargetCfg/TargetCfgProofs.vo", "Props/C17.vo"],
+    coq_targets=["TargetCfg/TargetCfgCheck.vo", "TargetCfg/TargetCfgProofs.vo", "TargetCfg/TargetCfgKSound.vo", "Props/C17.vo"],
     assumptions=[
         "single goroutine per Config (Load/Current serialise on Config.mu; concurrent loads are some sequential history)",
         "proto.Equal on SubscribeRequest / Target / Credentials is equality of message content (stood for by the deterministic wire form in the correspondence run)",
